@@ -287,9 +287,10 @@ const (
 	WAny     = "any"     // GenericWriter[any] with an explicit schema
 	WRows    = "rows"    // GenericWriter[T].WriteRows(pre-shredded rows)
 	WFilter  = "filter"  // FilterRowWriter(GenericWriter[T], always true).WriteRows(the caller's own rows)
+	WMixed   = "mixed"   // GenericWriter[T]: WriteRows and Write in turn on the same writer
 )
 
-var WriterKinds = []string{WGeneric, WReflect, WAny, WRows, WFilter}
+var WriterKinds = []string{WGeneric, WReflect, WAny, WRows, WFilter, WMixed}
 
 // Buffer kinds.
 const (
@@ -356,6 +357,8 @@ type genericWriter[T any] struct {
 	w      *parquet.GenericWriter[T]
 	rows   bool
 	filter parquet.RowWriter
+	mixed  bool
+	calls  int
 }
 
 func (g *genericWriter[T]) Write(d Data, lo, hi int) (int, error) {
@@ -364,7 +367,8 @@ func (g *genericWriter[T]) Write(d Data, lo, hi int) (int, error) {
 		// the caller's own rows, not copies: they must come back untouched
 		return g.filter.WriteRows(dd.rows[lo:hi])
 	}
-	if g.rows {
+	g.calls++
+	if g.rows || (g.mixed && g.calls%2 == 1) {
 		rows := cloneRows(dd.rows[lo:hi])
 		n, err := g.w.WriteRows(rows)
 		Scribble(rows) // ours: the writer must have copied what it needs
@@ -445,7 +449,8 @@ func (g *sortingWriter[T]) Write(d Data, lo, hi int) (int, error) {
 }
 func (g *sortingWriter[T]) WriteRows(rows []parquet.Row) (int, error) { return g.w.WriteRows(rows) }
 func (g *sortingWriter[T]) WriteRowGroup(rg parquet.RowGroup) (int64, error) {
-	panic("SortingWriter has no WriteRowGroup")
+	// a SortingWriter has no WriteRowGroup: the rows are copied
+	return parquet.CopyRows(g.w, rg.Rows())
 }
 func (g *sortingWriter[T]) Flush() error                    { return g.w.Flush() }
 func (g *sortingWriter[T]) Close() error                    { return g.w.Close() }
@@ -468,6 +473,8 @@ func (s *shape[T]) NewWriter(kind string, out io.Writer, opts ...parquet.WriterO
 		return &genericWriter[T]{w: parquet.NewGenericWriter[T](out, opts...)}
 	case WRows:
 		return &genericWriter[T]{w: parquet.NewGenericWriter[T](out, opts...), rows: true}
+	case WMixed:
+		return &genericWriter[T]{w: parquet.NewGenericWriter[T](out, opts...), mixed: true}
 	case WFilter:
 		w := parquet.NewGenericWriter[T](out, opts...)
 		return &genericWriter[T]{w: w, filter: parquet.FilterRowWriter(w, func(parquet.Row) bool { return true })}
